@@ -115,6 +115,10 @@ type hashList struct {
 type SPDX3 struct{}
 
 func (spdx3 *SPDX3) Serialize(bom *sbom.Document, _ *native.SerializeOptions, _ interface{}) (interface{}, error) {
+	if bom == nil || bom.NodeList == nil {
+		return nil, errors.New("unable to serialize a document without a node list")
+	}
+
 	now := time.Now()
 	spdxSBOM := sbomType{
 		Type: "Sbom",
@@ -136,6 +140,9 @@ func (spdx3 *SPDX3) Serialize(bom *sbom.Document, _ *native.SerializeOptions, _ 
 
 	// Cycle nodes and add them to the elements array
 	for _, n := range bom.NodeList.Nodes {
+		if n == nil {
+			continue
+		}
 		switch n.Type {
 		case sbom.Node_PACKAGE:
 			p, err := spdx3.nodeToPackage(n)
@@ -153,6 +160,9 @@ func (spdx3 *SPDX3) Serialize(bom *sbom.Document, _ *native.SerializeOptions, _ 
 	}
 
 	for _, e := range bom.NodeList.Edges {
+		if e == nil {
+			continue
+		}
 		r, err := spdx3.edgeToRelationship(e)
 		if err != nil {
 			return nil, fmt.Errorf("converting edge to SPDX3 relationship: %w", err)
@@ -215,6 +225,9 @@ func (spdx3 *SPDX3) nodeToPackage(n *sbom.Node) (pkg, error) {
 	}
 
 	for _, ei := range n.ExternalReferences {
+		if ei == nil {
+			continue
+		}
 		p.ExternalReferences = append(p.ExternalReferences, externalReference{
 			Type:                  "ExternalReference",
 			ExternalReferenceType: spdx3.extRefTypeFromProtobomExtRef(ei),
@@ -245,8 +258,12 @@ func (spdx3 *SPDX3) Render(rawDoc interface{}, w io.Writer, o *native.RenderOpti
 	if !ok {
 		return errors.New("unable to cast SBOM as an SPDX 3.0 SBOM")
 	}
+	indent := 0
+	if o != nil {
+		indent = o.Indent
+	}
 	enc := json.NewEncoder(w)
-	enc.SetIndent("", strings.Repeat(" ", o.Indent))
+	enc.SetIndent("", strings.Repeat(" ", indent))
 	if err := enc.Encode(doc); err != nil {
 		return fmt.Errorf("encoding SBOM: %w", err)
 	}
